@@ -64,11 +64,22 @@ def generate(rng, n, tier, stats):
                 cases.append({'ins': [a], 'ops': [['repeat', labs, kind, ref(rng, a['dims'], i)]]})
         elif k in ('broadcast', 'broadcast_to'):
             a = arr(maxdim=3, minlen=1)
+            stretch = None
+            if a['dims'] and rng.random() < 0.35:
+                # a dimension the array already has WITH ONE LABEL, which the target has with several: it is repeated along them
+                jj = rng.randrange(len(a['dims']))
+                a = rand_array(rng, stats=stats, dims=list(a['dims']), lens=[1 if j == jj else len(l) for j, l in enumerate(a['labels'])], distinct_lens=False, attrs=True)
+                stretch = a['dims'][jj]; stats['broadcast_own_singleton']['yes'] += 1
             extra = rng.sample([d for d in DIMPOOL if d not in a['dims']], rng.randint(0, 2))
             names = a['dims'] + extra; rng.shuffle(names)
             tgt = []
             for d in names:
-                if d in a['dims']:
+                if d == stretch:
+                    i = a['dims'].index(d); kind = a['axdtype'][i]
+                    more = [l for l in rand_labels(rng, 3, kind, 'shuf') if l not in a['labels'][i]][:rng.randint(1, 2)]
+                    labs = list(a['labels'][i]) + more; rng.shuffle(labs)
+                    tgt.append({'name': d, 'labels': labs, 'kind': kind})
+                elif d in a['dims']:
                     i = a['dims'].index(d)
                     tgt.append({'name': d, 'labels': a['labels'][i], 'kind': a['axdtype'][i]})
                 else:
@@ -212,6 +223,14 @@ def oracle(case, res):
                 return 'axis %s lost its metadata' % d
     if len(r['axes']) != len(r['shape']) or [len(x['labels']) for x in r['axes']] != r['shape']:
         return 'ill-formed result'
+    last = case['ops'][-1]
+    if last[0] in ('broadcast', 'broadcast_to'):
+        # every dimension of the result carries the labels of the axis it was broadcast onto
+        tgt = last[1] if last[0] == 'broadcast' else [{'name': d, 'labels': l} for d, l in zip(case['ins'][last[1]]['dims'], case['ins'][last[1]]['labels'])]
+        for t in tgt:
+            if t['name'] not in adims and len(t['labels']) == 1: continue     # (a NEW one-label dimension is left unlabelled: nothing is repeated along it)
+            if t['name'] in rl and not labs_eq(rl[t['name']]['labels'], t['labels']):
+                return 'broadcast: axis %s has labels %r, the target axis %r' % (t['name'], rl[t['name']]['labels'], t['labels'])
     ac = cells(a)
     for c, v in cells(r).items():
         cd = dict(zip(dims, c))
